@@ -370,15 +370,70 @@ fn respond(ident: &str, params: &str, frame: Frame) -> Option<R> {
         "AlbumArtEmbedded" => cmds::AlbumArtEmbedded::new("u").response(frame).map(show_art),
         // ---- song listings (modelled by C14): here only walked for panics
         "Queue" => cmds::Queue.response(frame).map(|v| format!("songs {} {}", v.len(), v.iter().map(show_queue_song).fold(0usize, usize::wrapping_add))),
-        "QueueRange" => cmds::QueueRange::range(SongPosition(0)..SongPosition(5))
-            .response(frame)
-            .map(|v| format!("songs {} {}", v.len(), v.iter().map(show_queue_song).fold(0usize, usize::wrapping_add))),
+        "QueueRange" => {
+            let show = |r: Result<Vec<mpd_client::responses::SongInQueue>, TypedResponseError>| {
+                r.map(|v| format!("songs {} {}", v.len(), v.iter().map(show_queue_song).fold(0usize, usize::wrapping_add)))
+            };
+            let variants: Vec<(&str, cmds::QueueRange)> = vec![
+                ("range(..)", cmds::QueueRange::range(..)),
+                ("range(5..2)", cmds::QueueRange::range(SongPosition(5)..SongPosition(2))),
+                ("range(..=MAX)", cmds::QueueRange::range(..=SongPosition(usize::MAX))),
+                ("range(7..MAX)", cmds::QueueRange::range(SongPosition(7)..SongPosition(usize::MAX))),
+                ("song(position)", cmds::QueueRange::song(SongPosition(usize::MAX))),
+                ("song(id)", cmds::QueueRange::song(mpd_client::commands::SongId(u64::MAX))),
+            ];
+            let plain = show(cmds::QueueRange::range(SongPosition(0)..SongPosition(5)).response(frame.clone()));
+            let plain_txt = match &plain { Ok(s) => format!("ok {s}"), Err(e) => err_kind(e) };
+            for (name, cmd) in variants {
+                let f2 = frame.clone();
+                let got = match catch(move || show(cmd.response(f2))) {
+                    Err(_) => "PANIC".to_string(),
+                    Ok(Ok(s)) => format!("ok {s}"),
+                    Ok(Err(e)) => err_kind(&e),
+                };
+                if got != plain_txt {
+                    return Some(Ok(format!("INCONSISTENT QueueRange::{name}.response(reply) = {} but QueueRange::range(0..5).response(reply) = {}", got.replace(' ', "_"), plain_txt.replace(' ', "_"))));
+                }
+            }
+            plain
+        }
         "CurrentSong" => cmds::CurrentSong
             .response(frame)
             .map(|v| format!("songs {} {}", v.is_some() as u8, v.iter().map(show_queue_song).fold(0usize, usize::wrapping_add))),
-        "Find" => cmds::Find::new(some_filter())
-            .response(frame)
-            .map(|v| format!("songs {} {}", v.len(), v.iter().map(show_song).fold(0usize, usize::wrapping_add))),
+        "Find" => {
+            // what the reply means does not depend on how the request was configured: every sort / window, the extreme and the
+            // inverted ones included, converts the same frame to the same songs
+            let show = |r: Result<Vec<mpd_client::responses::Song>, TypedResponseError>| {
+                r.map(|v| format!("songs {} {}", v.len(), v.iter().map(show_song).fold(0usize, usize::wrapping_add)))
+            };
+            let base = || cmds::Find::new(some_filter());
+            let variants: Vec<(&str, cmds::Find)> = vec![
+                ("window(..)", base().window(..)),
+                ("window(0..1)", base().window(0..1)),
+                ("window(5..)", base().window(5..)),
+                ("window(..=usize::MAX)", base().window(..=usize::MAX)),
+                ("window(10..usize::MAX)", base().window(10..usize::MAX)),
+                ("window(10..5)", base().window(10..5)),
+                ("window(3..3)", base().window(3..3)),
+                ("sort(Album)", base().sort(Tag::Album)),
+                ("sort(Album).window(2..9)", base().sort(Tag::Album).window(2..9)),
+                ("window(2..9).sort(Album)", base().window(2..9).sort(Tag::Album)),
+            ];
+            let plain = show(base().response(frame.clone()));
+            let plain_txt = match &plain { Ok(s) => format!("ok {s}"), Err(e) => err_kind(e) };
+            for (name, cmd) in variants {
+                let f2 = frame.clone();
+                let got = match catch(move || show(cmd.response(f2))) {
+                    Err(_) => "PANIC".to_string(),
+                    Ok(Ok(s)) => format!("ok {s}"),
+                    Ok(Err(e)) => err_kind(&e),
+                };
+                if got != plain_txt {
+                    return Some(Ok(format!("INCONSISTENT Find::new(f).{name}.response(reply) = {} but Find::new(f).response(reply) = {}", got.replace(' ', "_"), plain_txt.replace(' ', "_"))));
+                }
+            }
+            plain
+        }
         "GetPlaylist" => cmds::GetPlaylist("p")
             .response(frame)
             .map(|v| format!("songs {} {}", v.len(), v.iter().map(show_song).fold(0usize, usize::wrapping_add))),
